@@ -259,7 +259,7 @@ func (e *racEnv) eval(x Expr) gval {
 			}
 			ft := f.Type()
 			if _, isSlice := ft.Underlying().(*types.Slice); isSlice {
-				return gv(base.s + "." + x.Name, gSlice, ft.Underlying().(*types.Slice).Elem())
+				return gv(base.s+"."+x.Name, gSlice, ft.Underlying().(*types.Slice).Elem())
 			}
 			if _, ok := scalarSort(ft); ok {
 				return wrapScalar(base.s+"."+x.Name, ft)
@@ -385,11 +385,11 @@ func (e *racEnv) binary(x *EBin) gval {
 	case "<", "<=", ">", ">=":
 		return gval{s: "(" + e.i(x.X) + ".Cmp(" + e.i(x.Y) + ") " + x.Op + " 0)", k: gBool, elem: nil}
 	case "+":
-		return gv("new(big.Int).Add(" + e.i(x.X) + ", " + e.i(x.Y) + ")", gInt, nil)
+		return gv("new(big.Int).Add("+e.i(x.X)+", "+e.i(x.Y)+")", gInt, nil)
 	case "-":
-		return gv("new(big.Int).Sub(" + e.i(x.X) + ", " + e.i(x.Y) + ")", gInt, nil)
+		return gv("new(big.Int).Sub("+e.i(x.X)+", "+e.i(x.Y)+")", gInt, nil)
 	case "*":
-		return gv("new(big.Int).Mul(" + e.i(x.X) + ", " + e.i(x.Y) + ")", gInt, nil)
+		return gv("new(big.Int).Mul("+e.i(x.X)+", "+e.i(x.Y)+")", gInt, nil)
 	case "&":
 		return gval{s: "(" + a.s + " & " + b.s + ")", k: gCond, elem: nil}
 	case "|":
@@ -420,17 +420,17 @@ func (e *racEnv) call(x *ECall) gval {
 	case "sgn":
 		return gval{s: "big.NewInt(int64(" + i(0) + ".Sign()))", k: gInt, elem: nil}
 	case "min":
-		return gv("racMin(" + i(0) + ", " + i(1) + ")", gInt, nil)
+		return gv("racMin("+i(0)+", "+i(1)+")", gInt, nil)
 	case "max":
-		return gv("racMax(" + i(0) + ", " + i(1) + ")", gInt, nil)
+		return gv("racMax("+i(0)+", "+i(1)+")", gInt, nil)
 	case "tdiv":
-		return gv("racTDiv(" + i(0) + ", " + i(1) + ")", gInt, nil)
+		return gv("racTDiv("+i(0)+", "+i(1)+")", gInt, nil)
 	case "tmod":
-		return gv("racTMod(" + i(0) + ", " + i(1) + ")", gInt, nil)
+		return gv("racTMod("+i(0)+", "+i(1)+")", gInt, nil)
 	case "div":
-		return gv("racEDiv(" + i(0) + ", " + i(1) + ")", gInt, nil)
+		return gv("racEDiv("+i(0)+", "+i(1)+")", gInt, nil)
 	case "mod":
-		return gv("racEMod(" + i(0) + ", " + i(1) + ")", gInt, nil)
+		return gv("racEMod("+i(0)+", "+i(1)+")", gInt, nil)
 	case "wrap64":
 		return gval{s: "racWrap64(" + i(0) + ")", k: gInt, elem: nil}
 	case "wrap64u":
@@ -487,13 +487,13 @@ func (e *racEnv) call(x *ECall) gval {
 		n := *e
 		n.old = true
 		o := n.eval(a[0])
-		return gv("racSame(" + v.s + ", " + o.s + ")", gBool, nil)
+		return gv("racSame("+v.s+", "+o.s+")", gBool, nil)
 	case "sameobj":
 		v := e.eval(a[0])
 		n := *e
 		n.old = true
 		o := n.eval(a[1])
-		return gv("racSame(" + v.s + ", " + o.s + ")", gBool, nil)
+		return gv("racSame("+v.s+", "+o.s+")", gBool, nil)
 	}
 	if strings.HasPrefix(x.Fn, "uf_") {
 		var as []string
